@@ -436,6 +436,8 @@ def check_c08(case, stats=None):
                 # was accumulated is handed over before the pill takes effect)
                 if s.pending_at_send.get(m, 0) >= MAILBOX_SAFE:
                     continue
+                if any(fl & SRC_ONESHOT for fl in s.sub_flags.get(m, [])):
+                    continue        # matched through a one-shot subscription: only the first such message is delivered
                 if W.left_active_between(m, s.begin, eff[0] - 1) or _was_paused_between(W, m, s.begin, eff[0]):
                     continue
                 d = s.delivered.get(m) if hasattr(s, "delivered") else None
